@@ -713,7 +713,19 @@ impl Quil for Expression {
                 expression,
             }) => {
                 write!(f, "{operator}")?;
-                format_inner_expression(f, fall_back_to_debug, expression)
+                match expression.as_ref() {
+                    // `--x` and `--1` do not parse, and `-1+2.0i` would negate only the real part:
+                    // group nested prefixes, signed literals and two-part literals.
+                    Prefix(_) => write_parenthesized(f, fall_back_to_debug, expression),
+                    Number(value)
+                        if is_two_part(value)
+                            || value.re.is_sign_negative() && value.re != 0f64
+                            || value.im.is_sign_negative() && value.im != 0f64 =>
+                    {
+                        write_parenthesized(f, fall_back_to_debug, expression)
+                    }
+                    _ => format_inner_expression(f, fall_back_to_debug, expression),
+                }
             }
             Variable(identifier) => write!(f, "%{identifier}").map_err(Into::into),
         }
@@ -740,8 +752,29 @@ fn format_inner_expression(
             write!(f, ")")?;
             Ok(())
         }
+        // A literal with both a real and an imaginary part prints as a sum (`1+2.0i`), which must be
+        // grouped to keep its meaning next to an operator.
+        Expression::Number(value) if is_two_part(value) => {
+            write_parenthesized(f, fall_back_to_debug, expression)
+        }
         _ => expression.write(f, fall_back_to_debug),
     }
+}
+
+/// Does this literal print as a sum of a real and an imaginary part?
+fn is_two_part(value: &Complex64) -> bool {
+    value.re != 0f64 && value.im != 0f64
+}
+
+fn write_parenthesized(
+    f: &mut impl std::fmt::Write,
+    fall_back_to_debug: bool,
+    expression: &Expression,
+) -> crate::quil::ToQuilResult<()> {
+    write!(f, "(")?;
+    expression.write(f, fall_back_to_debug)?;
+    write!(f, ")")?;
+    Ok(())
 }
 
 #[cfg(test)]
